@@ -349,7 +349,11 @@ def apply_time_range_vfreebusy(start, end, comp, tzify):
     if dtstart and dtend:
         return start <= tzify(dtend.dt) and end > tzify(dtstart.dt)
 
-    for period in comp.get("FREEBUSY", []):
+    periods = comp.get("FREEBUSY", [])
+    if not isinstance(periods, list):
+        # a single FREEBUSY property with a single period
+        periods = [periods]
+    for period in periods:
         if start < period.end and end > period.start:
             return True
 
